@@ -168,7 +168,10 @@ def run_shard(ctx):
         if ctx.out_of_time():
             break
         r = rng.random()
-        phi = gens.synthetic_phase(rng, noise=(0.0 if r < .5 else float(rng.uniform(0, .2))), reversals=bool(r > .7))
+        phi = gens.synthetic_phase(rng, noise=(0.0 if r < .5 else float(rng.uniform(0, .2))), reversals=bool(r > .7),
+                                   ncycles=(int(rng.integers(100, 300)) if i % 40 == 7 else None))
+        if i % 40 == 11:
+            phi = np.tile(np.linspace(0.05, 6.2, int(rng.integers(6, 30))), int(rng.integers(3, 100)))    # exactly periodic good cycles
         if r < .5:
             # make some cycles start/end close to the edges
             phi = np.mod(phi - phi[0] + rng.uniform(0, .1), 2 * np.pi)
